@@ -277,20 +277,24 @@ def _err(e):
     return [k, getattr(e, "item", None)]
 
 
-def _run(classes, target, built, runtime, data, force_dfs=None):
-    """parse with class number `target` (all classes of the case are declared by now)"""
+def _run(classes, target, built, runtime, data, force_dfs=None, all_errors=False):
+    """parse with class number `target` (all classes of the case are declared by now); `all_errors`: the same options
+    but collecting without a cap (every violation the strategy's loop handles)"""
     from utype.utils import exceptions as exc
     cls, defaults, err = built[target]
     if cls is None:
         return {"config_error": err}, None
     cd = flatten(classes, target)
     if runtime is not None:
-        opts = _options(runtime, None, force_dfs)
-    elif force_dfs is not None:
+        od, at = runtime, None
+    elif force_dfs is not None or all_errors:
         # runtime options replace the class's wholesale: the class's own, with the strategy forced
-        opts = _options(cd["opts"] or {}, cd.get("addition_type"), force_dfs)
+        od, at = cd["opts"] or {}, cd.get("addition_type")
     else:
-        opts = None
+        od, at = None, None
+    if od is not None and all_errors:
+        od = dict(od, collect_errors=True, max_errors=None)
+    opts = _options(od, at, force_dfs) if od is not None else None
     try:
         inst = cls.__from__(dict((k, copy.deepcopy(v)) for k, v in data), options=opts)
     except exc.CollectedParseError as e:
@@ -323,7 +327,7 @@ def _run(classes, target, built, runtime, data, force_dfs=None):
     return {"ok": {"mapping": mapping, "attrs": attrs, "getattr": ga, "fresh": fresh, "contains": contains}}, cls
 
 
-def _run_func(cd, data, force_dfs):
+def _run_func(cd, data, force_dfs, all_errors=False):
     """a keyword-only function with the same parameters (C06: functions reach the same two loops)"""
     import warnings
     import utype
@@ -341,7 +345,10 @@ def _run_func(cd, data, force_dfs):
         body = ", ".join(f"{a}={a}" for a in atts)
         src = f"def f(*, {', '.join(params)}{kw}):\n    return dict({body}{', **kw' if kw else ''})\n"
         exec(src, ns)
-        fn = utype.parse(ns["f"], options=_options(cd.get("opts", {}), cd.get("addition_type"), force_dfs))
+        od = cd.get("opts", {})
+        if all_errors:
+            od = dict(od, collect_errors=True, max_errors=None)
+        fn = utype.parse(ns["f"], options=_options(od, cd.get("addition_type"), force_dfs))
     except (exc.ConfigError, SyntaxError) as e:
         return {"config_error": type(e).__name__}
     except Exception as e:
@@ -358,6 +365,11 @@ def _run_func(cd, data, force_dfs):
     return {"ok": {"mapping": m, "attrs": m, "getattr": {}}}
 
 
+def partial_report(df, ff) -> bool:
+    """both strategies failed and neither need have reported everything (fail-fast, or collected under a cap)"""
+    return all("raised" in o or "collected" in o for o in (df, ff))
+
+
 def impl(case):
     """as declared + once per strategy, on the real code; plus the leaf-converter tables"""
     from utype import type_transform
@@ -369,6 +381,9 @@ def impl(case):
         if "config_error" not in out:
             res["df"] = _run_func(cd, data, True)
             res["ff"] = _run_func(cd, data, False)
+            if partial_report(res["df"], res["ff"]):
+                res["df_all"] = _run_func(cd, data, True, all_errors=True)
+                res["ff_all"] = _run_func(cd, data, False, all_errors=True)
         return res
     classes, target = classes_of(case)
     built = _build_all(classes)
@@ -378,6 +393,10 @@ def impl(case):
         return res
     res["df"], _ = _run(classes, target, built, runtime, data, True)
     res["ff"], _ = _run(classes, target, built, runtime, data, False)
+    if partial_report(res["df"], res["ff"]):
+        # every violation each strategy handles (C06: classifying a difference in WHICH error is reported first)
+        res["df_all"], _ = _run(classes, target, built, runtime, data, True, all_errors=True)
+        res["ff_all"], _ = _run(classes, target, built, runtime, data, False, all_errors=True)
     cd = flatten(classes, target)
     # leaf conversions in isolation (World.fp / World.addConv), per declared type - not per field of the real parser
     values = {vtext(v): v for _, v in data}
